@@ -18,6 +18,12 @@ structure Engine (α : Type) where
   requiresGrad : Key → Bool      -- tensor.requires_grad
   expectsGrad : Key → Bool       -- requires_grad and (is_leaf or retains_grad)
 
+/-- `tensor.requires_grad_(False)` on the tensors `ks` AFTER the forward pass: the recorded graph (hence every
+    derivative block) is unchanged, but these tensors no longer require — nor can receive — a gradient -/
+def Engine.freeze {α : Type} (E : Engine α) (ks : List Key) : Engine α :=
+  { E with requiresGrad := fun k => !ks.contains k && E.requiresGrad k
+           expectsGrad := fun k => !ks.contains k && E.expectsGrad k }
+
 section
 variable {α : Type} [Zero α] [Add α] [Mul α]
 
